@@ -110,14 +110,17 @@ func (w *Wallet) getActiveKeyset(mintURL string) (*crypto.WalletKeyset, error) {
 
 	// if new active, save it to db and inactivate previous
 	if activeChanged {
-		// inactivate previous active
-		activeKeyset.Active = false
-		// the counter of the in-memory keyset is the one from when it was loaded.
-		// Use the latest from the db so that it does not get overwritten.
-		activeKeyset.Counter = w.db.GetKeysetCounter(activeKeyset.Id)
-		mint.inactiveKeysets[activeKeyset.Id] = activeKeyset
-		if err := w.db.SaveKeyset(&activeKeyset); err != nil {
-			return nil, err
+		// inactivate previous active. There is none to inactivate if a previous
+		// run stopped after inactivating it and before saving the new one.
+		if activeKeyset.Id != "" {
+			activeKeyset.Active = false
+			// the counter of the in-memory keyset is the one from when it was loaded.
+			// Use the latest from the db so that it does not get overwritten.
+			activeKeyset.Counter = w.db.GetKeysetCounter(activeKeyset.Id)
+			mint.inactiveKeysets[activeKeyset.Id] = activeKeyset
+			if err := w.db.SaveKeyset(&activeKeyset); err != nil {
+				return nil, err
+			}
 		}
 
 		for _, keyset := range allKeysets.Keysets {
